@@ -19,7 +19,7 @@ ASSUMPTIONS = [
     "v0 in {0, 1e-6, ..}; jumps: <=2 expected jumps per step, <=500 per year, mean sizes up to 0.3 (Kou down 0.5); rough Bergomi alpha in [-0.49,-0.01], "
     "eta<=4. Half precisions (float16/bfloat16) use the mild sweep only (sigma<=0.6, dt<=1/12, default-like jumps): with 5..8 exponent bits the extreme "
     "sweep overflows the type's range, which is a property of the type, not of the generator",
-    "instrument steps: ceil(time_horizon/dt + 1) in float arithmetic or in exact rationals (both accepted; the rounding clause is C13's subject)",
+    "instrument steps: the grid-size oracle of C13 (ceil of the exact ratio + 1; exactly k+1 within rounding distance of an integer k)",
     "rough Bergomi is generated with n_steps >= 2 (K4); a drawn single step is bumped to 2 and counted as excluded",
     "a backend operator not implemented for a half type (rough Bergomi's Cholesky) is counted as unsupported, not as a violation",
 ]
@@ -472,9 +472,9 @@ def check_instrument(case, ctx):
 
 
 def _steps_accepted(horizon, dt):
-    a = math.ceil(horizon / dt + 1)
-    b = math.ceil(Fraction(horizon) / Fraction(dt)) + 1
-    return {a, b}
+    from .c13 import expected_T  # the grid-size oracle of C13 (exact rationals; k+1 points within rounding distance of k)
+
+    return expected_T(horizon, dt)[1]
 
 
 def _check_instrument(case, ctx):
